@@ -16,6 +16,8 @@ from props import statelib
 from props import topiclib as T
 from props import c01burst
 from props import c01ims
+from props import c01att
+from props import c01join
 from props.statelib import kvs
 
 
@@ -514,6 +516,16 @@ def run(ctx):
         if rp is not None:
             ctx.coverage.setdefault("trusted_base", []).append("harness/overlay/server/zz_verif_c01i_test.go: description-options driver")
             ctx.finish()
+    if ok_r and ok_m and ctx.proof_ok() and (rp is None or rp.get("part") == "att"):
+        c01att.run_att(ctx, monitor)
+        if rp is not None:
+            ctx.coverage.setdefault("trusted_base", []).append("harness/overlay/server/zz_verif_c01a_test.go: attachments driver")
+            ctx.finish()
+    if ok_r and ok_m and ctx.proof_ok() and (rp is None or rp.get("part") == "join"):
+        c01join.run_join(ctx)
+        if rp is not None:
+            ctx.coverage.setdefault("trusted_base", []).append("harness/overlay/server/zz_verif_c01j_test.go: concurrent-joins driver")
+            ctx.finish()
     if ok_r and ok_m and ctx.proof_ok() and (rp is None or rp.get("part") == "chan"):
         c01ims.run_channel(ctx)
         if rp is not None:
@@ -538,4 +550,6 @@ def run(ctx):
                  "harness/overlay/server/zz_verif_c01b_test.go: burst / unload-race driver - write loops that serialise with Session.serialize at dequeue time and can be held; the kill timer's unregister request is handed to the real hub when the scenario says so; a {pub} queued at an unregistered instance (by the real Session.publish) is handled by the driver calling that instance's handleClientMsg after its goroutine has ended (select order clientMsg-before-exit emulated); hubunregmid holds the instance's goroutine at the entry of TopicUpdateOnMessage with the memverif call hook; store.Messages is wrapped to record every SeqId passed to Save and the outcome",
                  "harness/overlay/server/zz_verif_c01i_test.go: description-options driver - the concrete If-Modified-Since timestamp of every query is built by the driver on the side (before / not before) of the topic's CURRENT t.updated that the scenario names, t.updated being read at quiescence from the loaded topic or from the stored row; desc.created / desc.public are printed and compared for the evidence only",
                  "channel recipients and later queries: the C02 fan-out driver harness/overlay/server/zz_verif_c02_test.go and its extension zz_verif_c01q_test.go (qdesc / qdata; {meta desc} rendered as seq + acs present); 'attached at that moment' and 'effective permissions' in the laws are the implementation's own state dump after the previous request; queries are inserted into the C02 generator's histories after the fact, for connections attached by the fan-out model's state",
+                 "harness/overlay/server/zz_verif_c01a_test.go: attachments driver - a stub media handler (file ids read off /v0/file/s/<id> URLs), upload records of 'k' URLs written by the driver through store.Files before the fault is armed; the protobuf number pbseq is read off pbServSerialize of the very frame object that was queued for the session",
+                 "harness/overlay/server/zz_verif_c01j_test.go: concurrent-joins driver - topicInit's goroutine is held at the entry of adp.TopicGet by the memverif call hook while the second {sub} is dispatched and handled to quiescence; store.Messages is wrapped (c01bSpy) to record every number passed to Save; the model's event order [join a; join b; load completes] is the one the driver forces",
                  "frames of the model are values: 'no mutable state shared between a queued frame and later work of the topic goroutine' is checked by the driver (serialisation at dequeue time with held write loops), not proved"])
